@@ -79,4 +79,35 @@ pub fn run(out: &mut Out, seed: u64, thorough: bool) {
         }
     }
     out.sample("spec.busw 249 255 ; spec.busr 249 -> MISR, not the mask".into());
+    // 4. reads performed by the CPU: after histories of programs that enable, take and serve key interrupts (so that
+    //    mask, status register, flip-flop and board are in every combination), an `LD R0, (a)` executed on a copy of the
+    //    machine must leave RAM, I/O registers, mask, status and board as they were - for every I/O address and RAM
+    let n_h = if thorough { 400 } else { 60 };
+    for h in 0..n_h {
+        let di = h % 2 == 1;
+        let (img, _) = crate::c_isa::c04_program(&mut rng, di);
+        run_line(out, &mut s, "new");
+        run_line(out, &mut s, &format!("load 16 255 {}", crate::sess::hexs(&img)));
+        run_line(out, &mut s, &format!("edges {}", 40 + rng.below(200)));
+        if h < (if thorough { 40 } else { 6 }) {
+            // directed: a press, then the read at EVERY following clock edge (before, during and after the routine)
+            run_line(out, &mut s, "irq");
+            for _ in 0..160 {
+                run_line(out, &mut s, "edge");
+                run_line(out, &mut s, "spec.cpuread 249");
+                out.count("cpu-read");
+            }
+        }
+        for _ in 0..1 + rng.below(3) {
+            run_line(out, &mut s, "irq");
+            run_line(out, &mut s, &format!("edges {}", 1 + rng.below(90)));
+            for a in (0xF0..=0xFFu32).chain([0u32, 0x80, 0xEF]) {
+                if thorough || a == 0xF9 || (a + h as u32) % 4 == 0 {
+                    run_line(out, &mut s, &format!("spec.cpuread {}", a));
+                    out.count("cpu-read");
+                }
+            }
+        }
+    }
+    run_line(out, &mut s, "new");
 }
